@@ -396,6 +396,67 @@ def run_suite_stage(prop, tier):
     return out, viol, charts, sample
 
 
+def run_shipped_twin_stage(prop, tier, seed):
+    """C09 on the shipped contract charts with their real code: pairs of recorded runs (contracts on / ignored)."""
+    import repo_traces
+    import subprocess
+    t0 = time.time()
+    name = '%s_shipped' % prop
+    d = tlc.workdir(name)
+    path = os.path.join(d, 'twin.ndjson')
+    env = dict(os.environ, SISMIC_VERIF='1', SISMIC_VERIF_TRACE=path)
+    p = subprocess.run([sys.executable, os.path.join(tlc.VERIF, 'harness', 'shipped_twin.py'), str(seed),
+                        '6' if tier == QUICK else '60'], env=env, stdout=subprocess.PIPE, stderr=subprocess.STDOUT, text=True)
+    if p.returncode != 0 or not os.path.exists(path):
+        raise Machinery('shipped_twin.py failed: ' + p.stdout[-800:])
+    runs = repo_traces.load(path)
+    charts, traces, seen = [], [], {}
+    iids = sorted(runs)
+    for k in range(0, len(iids) - 1, 2):
+        ta, tb = repo_traces.to_trace(runs[iids[k]], k + 1), repo_traces.to_trace(runs[iids[k + 1]], k + 2)
+        if ta is None or tb is None:
+            continue
+        for la, lb in zip(ta['lines'], tb['lines']):
+            la['ref'] = {'rel': 'ignore', 'exc': lb['exc'], 'some': lb['some'], 'steps': lb['steps'], 'log': [],
+                         'conf': lb['post']['conf'], 'final': lb['post']['final'], 'x': 0}
+            lb['ign'] = True
+        for t in (ta, tb):
+            key = json.dumps(t['chart'], sort_keys=True)
+            if key not in seen:
+                charts.append(t['chart'])
+                seen[key] = len(charts)
+            t['ci'] = seen[key]
+            del t['chart']
+            t['kw'] = dict(t['kw'], source='shipped chart, real code', twin='ignore' if t is tb else 'contracts')
+            traces.append(t)
+    if not traces:
+        raise Machinery('no shipped contract chart could be run')
+    for c_ in charts:
+        c_['events'] = sorted(set(c_['events']))
+    reports, ts = engine.trace_check(name, charts, traces)
+    if ts['errors']:
+        raise Machinery('TLC failed on the shipped twin traces:\n' + str(ts['errors'][0]))
+    viol, cross, seenu = [], Counter(), set()
+    for t in traces:
+        for ln, u in enumerate(t['uids']):
+            if u in seenu:
+                continue
+            seenu.add(u)
+            r = reports[u]
+            mine = [[ln + 1, b[0], b[1]] for b in r['bad'] if b[0] == prop]
+            for b in r['bad']:
+                if b[0] != prop:
+                    cross['%s.%s' % (b[0], b[1])] += 1
+            if mine:
+                viol.append((dict(t, hist=t['hist'][:ln + 1], lines=t['lines'][:ln + 1]), mine, r))
+    out = dict(stage='shipped-contract-charts-real-code', charts=len(charts), mc_states=0, mc_transitions=0,
+               traces=len(traces), edge_traces=0, random_traces=len(traces), lines_evaluated=len(seenu),
+               cross_failures=dict(cross), divergences=0, model_violations=0, mc_completed=True,
+               wall_s=round(time.time() - t0, 2), trace_cmd=ts['cmd'])
+    return out, viol, charts, [{'source': 'shipped contract chart with its real code, twin ignore_contract',
+                                'observed_last_line': traces[0]['lines'][-1]}]
+
+
 def run_stage(prop, tier, seed, stage, rng):
     name = '%s_%s' % (prop, stage['name'])
     charts = stage['charts']
@@ -536,6 +597,18 @@ def main(prop, tier, seed, replay_path=None):
             if out['model_violations'] and not viol:
                 raise Machinery('the operational model violates %s on an input the real code handles '
                                 'correctly: the model misrepresents the code (see %s)' % (prop, mc['dir']))
+        if prop == 'C09':
+            out, viol, allcharts, samples = run_shipped_twin_stage(prop, tier, seed)
+            cov['stages'].append(out)
+            cov['traces_validated_against_impl'] += out['traces']
+            cov['samples'] += samples
+            for (t, mine, r) in viol:
+                nviol += 1
+                if nviol <= 5:
+                    path = evd.write_replay(prop, nviol, {'property': prop, 'chart': allcharts[t['ci'] - 1], 'hist': t['hist'],
+                                                          'kw': t['kw'], 'failing': mine, 'lines': t['lines']})
+                    lines_out.append('VIOLATION property=%s replay=%s' % (prop, path))
+                    lines_out.append('  clauses=%s (shipped chart run with its real code)' % sorted({b[2] for b in mine}))
         if prop in SUITE_STAGE and (tier == THOROUGH or prop in SUITE_QUICK):
             out, viol, allcharts, samples = run_suite_stage(prop, tier)
             cov['stages'].append(out)
